@@ -55,6 +55,7 @@ const (
 type Operation struct {
 	ctx    context.Context
 	cancel func()
+	verif  verifOpData
 
 	// RO fields
 	opType OperationType
@@ -120,6 +121,7 @@ func (op *Operation) Context() context.Context {
 // Cancel will cancel the context associated to this operation.
 func (op *Operation) Cancel() {
 	_, span := trace.StartSpan(op.ctx, "optracker/Cancel")
+	verifCancel(op)
 	op.cancel()
 	span.End()
 }
@@ -142,6 +144,7 @@ func (op *Operation) SetPhase(ph Phase) {
 	{
 		op.phase = ph
 		op.ts = time.Now()
+		verifOp(op, "SetPhase")
 	}
 	op.mu.Unlock()
 	span.End()
@@ -165,6 +168,7 @@ func (op *Operation) SetError(err error) {
 		op.phase = PhaseError
 		op.error = err.Error()
 		op.ts = time.Now()
+		verifOp(op, "OpSetError")
 	}
 	op.mu.Unlock()
 	span.End()
